@@ -475,26 +475,46 @@ def _loss_of(ret, learner, agent):
     return (float(ret),)
 
 
+def _flat(mod) -> torch.Tensor:
+    from ..project.agent import all_tensors
+    ts = [t.detach().reshape(-1).double() for _, t in sorted(all_tensors(mod).items()) if t.dtype.is_floating_point]
+    return torch.cat(ts) if ts else torch.zeros(0, dtype=torch.float64)
+
+
+def _num(loss) -> List[float]:
+    out = []
+    for x in loss:
+        if x is None:
+            continue
+        out += list(x) if isinstance(x, tuple) else [x]
+    return out
+
+
 def run_diff(variant: str, family: str, *, seed: int, gamma: Optional[float] = None, warm: int = 2, B: int = 8) -> dict:
     """Differential DoneMasks on the real default networks.  Per learner: (i) perturb next_obs of every row marked
-    done (for that learner) -> loss and all weights of the learner bit-equal; (ii) control: perturb next_obs of one row
-    not marked done -> the loss changes (gamma > 0)."""
+    done (for that learner) -> loss and all weights of the learner equal; (ii) control: perturb next_obs of one row
+    not marked done -> loss or weights change (gamma > 0).
+    Equality is bit-equality, except for RainbowDQN: there the projected target of a done row is mass(p) * (split of
+    r between two atoms), where p is the target network's distribution at next_obs; mass(p) is 1 only up to float32
+    rounding (and the network's 1e-3 clamp), so equality is taken up to 1e-5 + the observed relative mass difference."""
     from .. import zoo
     from ..project import agent as proj
     algo, kw, style = VARIANTS[variant]
     multi = algo in zoo.MULTI
+    rainbow = algo == "RainbowDQN"
     rng = random.Random(seed)
     probe = make_variant(variant, family, seed, gamma=gamma)
     nlearn = len(probe.agent_ids) if multi else 1
     g = float(probe.gamma)
     cfg = {"algo": variant, "family": family, "mode": "max", "g2": (0 if g == 0.0 else 2), "n": 1, "nsl": 1, "nal": 1, "seed": seed,
-           "gamma": g, "regularised": 0, "B": B}
+           "gamma": g, "regularised": 0, "B": B, "equality": "float-tolerance" if rainbow else "bitwise"}
     evs = []
+    bids = [seed % 1000, seed % 1000 + 1] if style.startswith("nstep") else [seed % 1000]
 
     def batches(agent, done_pattern, pert_rows, learner):
         """(experiences, n_experiences) with the chosen done flags; next_obs of pert_rows replaced when pert_rows"""
         out = []
-        for j, bid in enumerate([seed % 1000, seed % 1000 + 1] if style.startswith("nstep") else [seed % 1000]):
+        for j, bid in enumerate(bids):
             b = zoo.make_batch(agent, algo, bid, B=B)
             alt = zoo.make_batch(agent, algo, bid + 500, B=B)
             pr = Proto(b)
@@ -520,6 +540,13 @@ def run_diff(variant: str, family: str, *, seed: int, gamma: Optional[float] = N
         for w in range(warm):                                 # targets and online networks differ, optimiser has state
             zoo.learn(ag, algo, 900 + w)
         bs = batches(ag, done_pattern, pert_rows, learner)
+        mass = []
+        if rainbow:
+            with torch.no_grad():
+                for b in bs:
+                    nobs = ag.preprocess_observation(b["next_obs"])
+                    greedy = ag.actor(nobs).argmax(1)
+                    mass.append(ag.actor_target(nobs, q=False)[torch.arange(B), greedy].sum(1).double())
         zoo.seed_all(31337 + seed)
         if style == "plain":
             ret = ag.learn(bs[0])
@@ -529,36 +556,364 @@ def run_diff(variant: str, family: str, *, seed: int, gamma: Optional[float] = N
             ret = ag.learn(bs[0], n_experiences=bs[1], per=False)
         else:
             ret = ag.learn(bs[0], n_experiences=bs[1], per=True)
+        if rainbow:
+            ret = (ret[0], ret[2])                            # loss, new priorities (idxs are handed back unchanged)
         loss = _loss_of(ret, learner, ag)
-        ws = [(nm, proj.w_hash(m)) for nm, m in _nets_of(ag, learner if multi else None)]
-        return loss, ws
+        ws = [(nm, _flat(m)) for nm, m in _nets_of(ag, learner if multi else None)]
+        return loss, ws, mass, float(getattr(ag, "lr", 0.0))
 
-    nb = 2 if style.startswith("nstep") else 1
+    def compare(r0, r1, done_rows):
+        (l0, w0, m0, lr), (l1, w1, m1, _) = r0, r1
+        if not rainbow:
+            wd = [a[0] for a, b in zip(w0, w1) if not torch.equal(a[1], b[1])]
+            return l0 == l1, not wd, wd, 0.0
+        dev = 0.0
+        for j, rows in enumerate(done_rows):
+            for i in rows:
+                dev = max(dev, abs(float(m0[j][i]) - float(m1[j][i])) / float(m0[j][i]))
+        a, b = np.array(_num(l0)), np.array(_num(l1))
+        same_loss = a.shape == b.shape and bool(np.all(np.abs(a - b) <= (1e-5 + 2 * dev) * np.maximum(np.abs(a), 1e-6)))
+        wd = [x[0] for x, z in zip(w0, w1) if x[1].shape != z[1].shape or float((x[1] - z[1]).abs().max()) > 1e-6 + 10 * lr * dev]
+        return same_loss, not wd, wd, dev
+
+    nb = len(bids)
     for learner in range(nlearn):
         pattern = []
         for j in range(nb):
             d = [int(rng.random() < 0.4) for _ in range(B)]
-            d[rng.randrange(B)] = 1
-            free = [i for i in range(B) if d[i] == 1]
-            d[rng.choice([i for i in range(B) if i not in free[:1]])] = 0
+            i1 = rng.randrange(B)
+            d[i1] = 1
+            d[rng.choice([i for i in range(B) if i != i1])] = 0
             pattern.append(d)
         dflat = [x for d in pattern for x in d]
         done_rows = [[i for i in range(B) if d[i] == 1] for d in pattern]
-        live = [[i for i in range(B) if d[i] == 0] for d in pattern]
-        ctl = [[rng.choice(live[j])] if j == nb - 1 or True else [] for j in range(nb)]
+        ctl = [[rng.choice([i for i in range(B) if d[i] == 0])] for d in pattern]
+        base = None
         for name, pert in (("done-rows", done_rows), ("control", ctl)):
             ev = {"op": "diff", "learner": learner + 1, "what": name, "d": dflat,
                   "pert": [j * B + i + 1 for j in range(nb) for i in pert[j]], "exc": "", "same_loss": False, "same_w": False}
             try:
-                l0, w0 = one_run(pattern, [[] for _ in range(nb)], learner)
-                l1, w1 = one_run(pattern, pert, learner)
-                ev["same_loss"] = bool(l0 == l1)
-                ev["same_w"] = bool(w0 == w1)
-                ev["loss"] = [repr(l0), repr(l1)]
-                ev["w_diff"] = [a[0] for a, b in zip(w0, w1) if a != b]
+                if base is None:
+                    base = one_run(pattern, [[] for _ in range(nb)], learner)
+                r1 = one_run(pattern, pert, learner)
+                sl, sw, wd, dev = compare(base, r1, done_rows if name == "done-rows" else [[] for _ in range(nb)])
+                ev.update({"same_loss": bool(sl), "same_w": bool(sw), "loss": [repr(base[0])[:200], repr(r1[0])[:200]], "w_diff": wd,
+                           "mass_dev": dev})
             except Exception as e:
                 import traceback
                 ev["exc"] = f"{type(e).__name__}: {e}"[:300]
                 ev["tb"] = traceback.format_exc()[-800:]
             evs.append(ev)
     return {"cfg": cfg, "ev": evs}
+
+
+def run_diff_rainbow_stub(*, N: int, vmin: int, B: int, n: int, nstep: bool, combined: bool, per: bool, seed: int) -> dict:
+    """Exact differential DoneMasks for RainbowDQN.learn: the harness of C18 (vfw/drive/c51.py: real agent, network
+    forwards answered from tables keyed by observation content) with target distributions of mass exactly 1 on a
+    dyadic grid.  "Another next observation" on a done row = other table entries for that row's next_obs (another
+    greedy action, other target distributions).  The projected target distributions (guarded hook rainbow.proj),
+    the loss and the per-sample losses must be bit-equal; on a row not marked done they must change."""
+    from . import c51
+    Q, PDEN = 8, 16
+    rng0 = random.Random(seed)
+    names = ["one", "n"] if nstep else ["one"]
+    batches = {}
+    for nm in names:
+        rows = []
+        for i in range(B):
+            w = [0] * N
+            for _ in range(PDEN):
+                w[rng0.randrange(N)] += 1
+            rows.append((w, rng0.randint(Q * vmin, Q * (vmin + N - 1)), int(rng0.random() < 0.4)))
+        batches[nm] = {"rows": rows, "greedy": [rng0.randrange(c51.A) for _ in range(B)], "taken": [rng0.randrange(c51.A) for _ in range(B)]}
+    if nstep:
+        batches["n"]["taken"] = list(batches["one"]["taken"])
+    for nm in names:                                                  # at least one done and one live row per batch
+        rows = batches[nm]["rows"]
+        rows[0] = (rows[0][0], rows[0][1], 1)
+        rows[1 % B] = (rows[1 % B][0], rows[1 % B][1], 0) if B > 1 else rows[0]
+    dflat = [r[2] for nm in names for r in batches[nm]["rows"]]
+    cfg = {"algo": "RainbowDQN-stub" + ("-nstep" if nstep else "") + ("-combined" if combined else "") + ("-per" if per else ""),
+           "family": "stub", "mode": "max", "g2": 1, "n": 1, "nsl": 1, "nal": 1, "seed": seed, "gamma": 0.5, "regularised": 0, "B": B,
+           "equality": "bitwise", "N": N, "vmin": vmin, "nstep_n": n}
+
+    def one_run(pert: Dict[str, List[int]]):
+        h = c51.Harness(N, vmin, B, gamma=0.5, n_step=n, combined=combined, seed=seed)
+        h.set_tables(random.Random(seed + 1), batches, PDEN)
+        prng = random.Random(seed + 2)
+        for nm in names:
+            kn = c51.KIND[nm][1]
+            for i in pert.get(nm, []):                                 # what the networks answer for row i's next_obs
+                g = (batches[nm]["greedy"][i] + 1) % c51.A
+                h.qvals[kn][i] = torch.tensor([1.0 if a == g else -float(1 + abs(a - g)) for a in range(c51.A)])
+                for a in range(c51.A):
+                    w = [0] * N
+                    for _ in range(PDEN):
+                        w[prng.randrange(N)] += 1
+                    h.tpmf[kn][i, a] = torch.tensor(w, dtype=torch.float32) / PDEN
+        idxs = torch.arange(B)
+        wts = torch.tensor([[0.5 + 0.25 * (i % 3)] for i in range(B)])
+        e1 = h.experiences("one", batches["one"], Q, per=per, idxs=(idxs if (per or nstep) else None), weights=wts)
+        en = h.experiences("n", batches["n"], Q) if nstep else None
+        h.reset_obs()
+        torch.manual_seed(seed)
+        loss, _, prio = h.agent.learn(e1, n_experiences=en, per=per)
+        recs = [f["proj_dist"].detach().clone() for (nm_, f) in h.hooks.drain() if nm_ == "rainbow.proj"]
+        per_sample = [x[1] for x in h.losses if x[0] == "ok"]
+        return float(loss), (None if prio is None else np.asarray(prio).copy()), recs, per_sample
+
+    evs = []
+    base = None
+    done_rows = {nm: [i for i, r in enumerate(batches[nm]["rows"]) if r[2] == 1] for nm in names}
+    ctl = {nm: [[i for i, r in enumerate(batches[nm]["rows"]) if r[2] == 0][0]] for nm in names}
+    for what, pert in (("done-rows", done_rows), ("control", ctl)):
+        ev = {"op": "diff", "learner": 1, "what": what, "d": dflat, "exc": "", "same_loss": False, "same_w": False,
+              "pert": [j * B + i + 1 for j, nm in enumerate(names) for i in pert[nm]]}
+        try:
+            if base is None:
+                base = one_run({})
+            r1 = one_run(pert)
+            if not base[2] or len(base[2]) != len(r1[2]):
+                raise RuntimeError("no rainbow.proj hook record (is AGILERL_VERIF=1 set?)")
+            same_proj = all(torch.equal(a, b) for a, b in zip(base[2], r1[2]))
+            same_ps = len(base[3]) == len(r1[3]) and all(torch.equal(a, b) for a, b in zip(base[3], r1[3]))
+            same_pr = (base[1] is None and r1[1] is None) or (base[1] is not None and r1[1] is not None and np.array_equal(base[1], r1[1]))
+            ev["same_loss"] = bool(base[0] == r1[0] and same_ps and same_pr)
+            ev["same_w"] = bool(same_proj)                             # "weights" here: the projected target distributions
+            ev["loss"] = [repr(base[0]), repr(r1[0])]
+            ev["w_diff"] = [] if same_proj else ["proj_dist"]
+        except Exception as e:
+            import traceback
+            ev["exc"] = f"{type(e).__name__}: {e}"[:300]
+            ev["tb"] = traceback.format_exc()[-800:]
+        evs.append(ev)
+    return {"cfg": cfg, "ev": evs}
+
+
+# ============================================================================ Part 3: target tracking
+TOL = 1e-5
+
+
+def target_pairs(agent):
+    """[(online name, target name, index in list or None)] from the agent's registry (eval network -> shared networks)"""
+    from ..project import agent as proj
+    evals, shared = proj.net_names(agent)
+    out = []
+    for e in evals:
+        n = len(proj._mods(agent, e))
+        for s in shared[e]:
+            for i in range(n):
+                out.append((e, s, i if isinstance(getattr(agent, e), list) else None))
+    return out
+
+
+def _mod(agent, name, i):
+    obj = getattr(agent, name)
+    return obj[i] if i is not None else obj
+
+
+def _target_tensors(agent, online_name, target_name, i):
+    """name -> (online parameter, target tensor or None) for every parameter of the online network"""
+    from ..project.agent import all_tensors
+    on = dict(_mod(agent, online_name, i).named_parameters())
+    tg = all_tensors(_mod(agent, target_name, i))
+    return {k: (v, tg.get(k)) for k, v in on.items()}
+
+
+def classify_tensor(t_after, o_after, t_before, tau: float) -> str:
+    if t_after is None or t_before is None or t_after.shape != o_after.shape or t_before.shape != t_after.shape:
+        return "other"
+    ta, oa, tb = t_after.double(), o_after.double(), t_before.double()
+    scale = max(float(ta.abs().max()), float(oa.abs().max()), float(tb.abs().max()), 1e-3) if ta.numel() else 1.0
+    tol = TOL * scale
+    if ta.numel() == 0 or float((oa - tb).abs().max()) <= 16 * tol:
+        # online_after == target_before (within resolution): lerp, noop and copy coincide
+        return "same" if (ta.numel() == 0 or float((ta - tb).abs().max()) <= 16 * tol) else "other"
+    hits = []
+    if float((ta - (tau * oa + (1.0 - tau) * tb)).abs().max()) <= tol:
+        hits.append("lerp")
+    if float((ta - tb).abs().max()) <= tol:
+        hits.append("noop")
+    if float((ta - oa).abs().max()) <= tol:
+        hits.append("copy")
+    return hits[0] if len(hits) == 1 else "other"
+
+
+KIND_ARGS = {"arch": dict(no_mutation=0, architecture=1, new_layer_prob=0.5, parameters=0, activation=0, rl_hp=0),
+             "param": dict(no_mutation=0, architecture=0, new_layer_prob=0.5, parameters=1, activation=0, rl_hp=0),
+             "act": dict(no_mutation=0, architecture=0, new_layer_prob=0.5, parameters=0, activation=1, rl_hp=0),
+             "hp": dict(no_mutation=0, architecture=0, new_layer_prob=0.5, parameters=0, activation=0, rl_hp=1)}
+
+
+class TrackRunner:
+    """Executes a life-cycle script on real agents of one learner variant and records the Track_Trace events."""
+
+    def __init__(self, variant: str, family: str, *, pf: int, tau: float, seed: int, nslots: int = 3):
+        self.variant, self.family, self.pf, self.tau, self.seed, self.nslots = variant, family, pf, tau, seed, nslots
+        self.algo, self.kw, self.style = VARIANTS[variant]
+        self.slots = [None] * (nslots + 1)
+        self.ev: List[dict] = []
+        self.dir = tempfile.mkdtemp(prefix="track-")
+        self.muts: Dict[str, object] = {}
+        self.targets: Optional[List[str]] = None
+
+    def close(self):
+        shutil.rmtree(self.dir, ignore_errors=True)
+
+    def counter(self, ag) -> int:
+        c = getattr(ag, "learn_counter", None)
+        if c is None:
+            return -1
+        if isinstance(c, dict):
+            return int(list(c.values())[-1])
+        return int(c)
+
+    def learn(self, ag, bid: int):
+        from .. import zoo
+        zoo.seed_all(7000 + bid)
+        B = int(ag.batch_size)
+        b = zoo.make_batch(ag, self.algo, bid, B=B)
+        if self.style == "plain":
+            return ag.learn(b)
+        if self.style.endswith("per"):
+            b["weights"] = torch.ones(B, 1)
+        b["idxs"] = torch.arange(B)
+        if self.style.startswith("nstep"):
+            return ag.learn(b, n_experiences=zoo.make_batch(ag, self.algo, bid + 300, B=B), per=self.style.endswith("per"))
+        return ag.learn(b, per=True)
+
+    def snapshot_targets(self, ag):
+        return [{k: (None if t is None else t.detach().clone()) for k, (o, t) in _target_tensors(ag, e, s, i).items()}
+                for (e, s, i) in target_pairs(ag)]
+
+    def classify(self, ag, before) -> List[dict]:
+        out = []
+        tau = float(ag.tau)
+        for (e, s, i), tb in zip(target_pairs(ag), before):
+            cur = _target_tensors(ag, e, s, i)
+            per = {k: classify_tensor(t, o.detach(), tb.get(k), tau) for k, (o, t) in cur.items()}
+            decided = sorted({c for c in per.values() if c != "same"})
+            cls = "other" if not per else ("same" if not decided else (decided[0] if len(decided) == 1 else "other"))
+            out.append({"pair": f"{e}->{s}" + ("" if i is None else f"[{i}]"), "cls": cls,
+                        "tensors": {k: c for k, c in per.items()} if cls == "other" else {}})
+        return out
+
+    def apply(self, op, e):
+        from .. import zoo
+        if op[0] == "create":
+            _, a = op
+            e["a"] = a
+            ag = make_variant(self.variant, self.family, self.seed + a, index=a - 1, policy_freq=self.pf, tau=self.tau)
+            self.slots[a] = ag
+            if self.targets is None:
+                self.targets = [f"{x}->{y}" + ("" if i is None else f"[{i}]") for (x, y, i) in target_pairs(ag)]
+            e["lc"] = self.counter(ag)
+        elif op[0] == "learn":
+            _, a, bid = op
+            e.update({"a": a, "b": bid})
+            ag = self.slots[a]
+            before = self.snapshot_targets(ag)
+            self.learn(ag, bid)
+            cl = self.classify(ag, before)
+            e["cls"] = [c["cls"] for c in cl]
+            e["detail"] = [c for c in cl if c["cls"] == "other"]
+            e["lc"] = self.counter(ag)
+        elif op[0] == "clone":
+            _, a, c = op
+            e.update({"a": a, "c": c})
+            self.slots[c] = self.slots[a].clone(index=c - 1)
+            e["lc"] = self.counter(self.slots[c])
+        elif op[0] == "mutate":
+            _, a, kind = op
+            e.update({"a": a, "k": kind})
+            from agilerl.hpo.mutation import Mutations
+            if kind not in self.muts:
+                self.muts[kind] = Mutations(mutation_sd=0.1, mutate_elite=True, rand_seed=self.seed + 11, **KIND_ARGS[kind])
+            zoo.seed_all(self.seed * 31 + len(self.ev))
+            out = self.muts[kind].mutation([self.slots[a]])
+            self.slots[a] = out[0]
+            e["mut"] = str(out[0].mut)
+            e["lc"] = self.counter(out[0])
+        elif op[0] == "save":
+            _, a, f = op
+            e.update({"a": a, "f": f})
+            self.slots[a].save_checkpoint(os.path.join(self.dir, f"f{f}.pt"))
+            e["lc"] = self.counter(self.slots[a])
+        elif op[0] == "loadnew":
+            _, f, c = op
+            e.update({"f": f, "c": c})
+            cls = type([s for s in self.slots if s is not None][0])
+            self.slots[c] = cls.load(os.path.join(self.dir, f"f{f}.pt"))
+            e["lc"] = self.counter(self.slots[c])
+        elif op[0] == "loadinto":
+            _, f, a = op
+            e.update({"f": f, "a": a})
+            self.slots[a].load_checkpoint(os.path.join(self.dir, f"f{f}.pt"))
+            e["lc"] = self.counter(self.slots[a])
+        else:
+            raise ValueError(op)
+
+    def run(self, ops) -> dict:
+        prev = "start"
+        for op in ops:
+            e = {"op": op[0], "a": 0, "c": 0, "f": 0, "k": "", "lc": -1, "cls": [], "exc": "", "after": prev}
+            try:
+                self.apply(op, e)
+            except Exception as ex:
+                import traceback
+                e["exc"] = f"{type(ex).__name__}: {ex}"[:300]
+                e["tb"] = traceback.format_exc()[-800:]
+                self.ev.append(e)
+                break
+            self.ev.append(e)
+            prev = op[0] + (":" + op[2] if op[0] == "mutate" else "")
+        return {"cfg": {"algo": self.variant, "family": self.family, "pf": self.pf, "tau": self.tau, "seed": self.seed,
+                        "NSlots": self.nslots, "targets": self.targets or [], "ops": [list(o) for o in ops]}, "ev": self.ev}
+
+
+def run_track(variant: str, family: str, ops, *, pf: int = 1, tau: float = 0.5, seed: int = 0, nslots: int = 3) -> dict:
+    r = TrackRunner(variant, family, pf=pf, tau=tau, seed=seed, nslots=nslots)
+    try:
+        return r.run(ops)
+    finally:
+        r.close()
+
+
+def script(rng: random.Random, pf: int, length: int = 14) -> List[tuple]:
+    """A life-cycle script over 3 slots and 2 files: learn steps interleaved with clone / mutate / save / load, so that
+    every life-cycle operation is directly followed by learn steps of the agent it produced."""
+    ops: List[tuple] = [("create", 1)]
+    alive = {1}
+    saved = set()
+    bid = rng.randrange(50)
+    for _ in range(pf + 1):
+        bid += 1
+        ops.append(("learn", 1, bid))
+    while len(ops) < length:
+        a = rng.choice(sorted(alive))
+        x = rng.random()
+        tgt = a
+        if x < 0.22 and len(alive) < 3:
+            c = min(s for s in (1, 2, 3) if s not in alive)
+            ops.append(("clone", a, c))
+            alive.add(c)
+            tgt = c
+        elif x < 0.5:
+            ops.append(("mutate", a, rng.choice(["arch", "arch", "param", "act", "hp"])))
+        elif x < 0.62:
+            f = rng.choice([1, 2])
+            ops.append(("save", a, f))
+            saved.add(f)
+        elif x < 0.8 and saved:
+            f = rng.choice(sorted(saved))
+            if len(alive) < 3 and rng.random() < 0.5:
+                c = min(s for s in (1, 2, 3) if s not in alive)
+                ops.append(("loadnew", f, c))
+                alive.add(c)
+                tgt = c
+            else:
+                ops.append(("loadinto", f, a))
+        for _ in range(rng.randint(1, pf + 1)):
+            bid += 1
+            ops.append(("learn", tgt, bid))
+    return ops
